@@ -708,7 +708,8 @@ class Delayed(DaskMethodsMixin, OperatorMethodMixin):
         return (self._layer,)
 
     def __dask_tokenize__(self):
-        return self.key
+        # tagged: a Delayed must not hash like the plain string that spells its key
+        return "dask.delayed.Delayed", self.key
 
     __dask_scheduler__ = staticmethod(DEFAULT_GET)
     __dask_optimize__ = globalmethod(optimize, key="delayed_optimize")
